@@ -100,14 +100,24 @@ func checkC01(w *workers, c workerCase, st *Stats) error {
 	if c.Req.Op == "parse" && c.Req.Env == "" && resp.NCmds == 0 && resp.Err == "" {
 		// neither commands nor an error: only for input whose first line is empty
 		src := c.Req.Src
+		if c.Req.N > 0 {
+			src = c.Req.Head + strings.Repeat(c.Req.Unit, c.Req.N) + src
+		}
 		for strings.HasPrefix(src, "\\\n") {
 			src = src[2:]
 		}
 		if !blankFirstLine(src) && !commentLinesOnly(src) {
-			return fmt.Errorf("neither a command nor an error was returned for %q", c.Req.Src)
+			return fmt.Errorf("neither a command nor an error was returned for %q", abbrev(src))
 		}
 	}
 	return nil
+}
+
+func abbrev(s string) string {
+	if len(s) > 300 {
+		return s[:150] + " ... " + s[len(s)-100:]
+	}
+	return s
 }
 
 // commentLinesOnly: leading comment lines are skipped within one call (pinned
@@ -148,7 +158,7 @@ func init() {
 	})
 }
 
-var c01Kinds = []string{"string", "bytes", "reader", "scanner", "lenient", "garbage", "func-reader", "slice-reader", "bytes.Buffer"}
+var c01Kinds = []string{"string", "bytes", "reader", "scanner", "lenient", "garbage", "func-reader", "slice-reader", "bytes.Buffer", "wrapped-eof-reader", "wrapped-eof-scanner"}
 
 // Byte sequences that are not valid UTF-8: a byte that never occurs, a lone
 // continuation byte, truncated two- and three-byte characters, an encoded
@@ -248,7 +258,7 @@ func TestC01(t *testing.T) {
 		})
 	}
 	st.Exhaustive = true
-	st.Note("exhaustive: all strings of <= %d tokens over the %d-token alphabet, blank-separated and concatenated, source kind rotating over string / []byte / io.Reader / custom RuneScanner / a RuneScanner whose UnreadRune steps back even after a failed read / one that returns a rune together with io.EOF / io.Readers of a func type and of a struct type with a slice field (not comparable) / *bytes.Buffer, every 11th with a second call on the same source object, each under GODEBUG panicnil=0 and panicnil=1, ParseCommands (every 7th: ParseCommand; every 5th: an environment with an empty alias table)", maxn, len(gen.TokenAlphabet))
+	st.Note("exhaustive: all strings of <= %d tokens over the %d-token alphabet, blank-separated and concatenated, source kind rotating over string / []byte / io.Reader / custom RuneScanner / a RuneScanner whose UnreadRune steps back even after a failed read / one that returns a rune together with io.EOF / io.Readers of a func type and of a struct type with a slice field (not comparable) / *bytes.Buffer / an io.Reader and a RuneScanner that end with an error wrapping io.EOF (a failing read, for the parser), every 11th with a second call on the same source object, each under GODEBUG panicnil=0 and panicnil=1, ParseCommands (every 7th: ParseCommand; every 5th: an environment with an empty alias table)", maxn, len(gen.TokenAlphabet))
 
 	// (i-b) byte sequences that are not valid UTF-8, in every kind of context
 	if sh == 0 {
@@ -261,6 +271,35 @@ func TestC01(t *testing.T) {
 		}
 		st.ClassN("invalid_utf8_in_context", int64(k))
 		st.Note("%d invalid UTF-8 sequences and %d unusual valid characters in each of %d syntactic contexts, through every source kind", len(invalidUTF8), len(unusualChars), len(utf8Contexts))
+	}
+
+	// (i-b') large flat inputs: millions of comment, blank and continuation
+	// lines, hundreds of thousands of words, commands, operands, redirections
+	// and list members: nothing nests, so the size must not matter
+	{
+		type flat struct {
+			head, unit string
+			n          int
+			tail       string
+		}
+		k := 0
+		for _, f := range []flat{
+			{"", "#\n", 6000000, "a\n"}, {"#\n", "\n", 6000000, "a\n"}, {"", "# c\n", 2000000, "a\n"}, {"", "\n", 2000000, "a\n"},
+			{"", "a ", 300000, "\n"}, {"", "a\n", 300000, ""}, {"", "a;", 300000, "\n"}, {"", "a|", 100000, "a\n"}, {"", "a&&", 100000, "a\n"},
+			{"cat <<E\n", "line\n", 10000, "E\n"}, {"", "\\\n", 1000000, "a\n"}, {"", " ", 4000000, "a\n"}, {"a ", "\\\n", 1000000, "a\n"},
+			{"a #", "x", 4000000, "\n"}, {"", "x", 4000000, "\n"}, {"'", "x\n", 1000000, "'\n"}, {"\"", "x\n", 1000000, "\"\n"},
+			{"a ", "'x'", 300000, "\n"}, {"a ", "$x", 300000, "\n"}, {"a ", "<f ", 100000, "\n"}, {"x=1 ", "y=2 ", 100000, "a\n"},
+			{"{ ", "a\n", 100000, "}\n"}, {"if a; then\n", "b\n", 100000, "fi\n"}, {"case x in\n", "a) b;;\n", 50000, "esac\n"},
+			{"for i in ", "w ", 300000, "; do a; done\n"}, {"a() {\n", "#\n", 1000000, "b\n}\n"}, {"a &&\n", "#\n", 1000000, "b\n"},
+		} {
+			k++
+			if k%nsh != sh {
+				continue
+			}
+			run(t, wproto.Req{Op: "parse", Head: f.head, Unit: f.unit, N: f.n, Src: f.tail, Cmd: k%2 == 0}, false)
+			st.Class("large_flat_inputs")
+		}
+		st.Note("large flat inputs: 27 shapes of 10^4..6x10^6 repetitions (leading comment / blank / continuation lines, words, commands, pipeline and list operands, redirections, assignments, here-document lines, members of brace groups, if and case clauses, for words, comment lines inside a function body and after &&)")
 	}
 
 	// (i-c) small alias tables, systematically: a value that begins with another
@@ -291,6 +330,30 @@ func TestC01(t *testing.T) {
 		st.Note("systematic alias tables: %d heads x %d fragments x %d values of the second alias x %d sources x {with, without trailing blank}", len(heads), len(frags), len(bvals), len(srcs))
 	}
 
+	// (i-d) alias values that span lines (a here-document, a compound command
+	// with newlines inside) met inside a substitution, which itself stands in a
+	// word, in the delimiter or in the body of a here-document: the text that
+	// comes from an alias has no positions of its own
+	{
+		vals := []string{"cat <<E\nb\nE\n", "cat <<E\nb\nE", "(x\ny)", "{ x\ny; }", "if x\nthen y\nfi", "cat <<$(cat <<F\nF\n)", "x <<E", "x <<-E\n\tE\n", "x <<E; y <<F\n1\nE\n2\nF\n", "for i in 1\ndo x\ndone", "case x in\nx) y;;\nesac", "x |\ny", "x &&\ny", "x\ny", "$(x\ny)", "`x\ny`", "x # c\ny"}
+		srcs := []string{"a", "a b", "$(a)", "`a`", "x $(a)", "x \"$(a)\"", "<<-`a`", "<<$(a)", "cat <<$(a)\nx\n", "cat <<E\n$(a)\nE\n", "cat <<E\n`a`\nE\n", "cat <<-E\n\t$(a) tail\nE\n", "cat <<E\n${x:-$(a)}\nE\n", "x $(a) <<E\nE\n", "cat <<E\n$(b)\nE\n", "$(( $(a) ))", "x=$(a) y", "x >$(a)", "for i in $(a); do y; done", "case $(a) in (`a`) y;; esac", "$(a)() { y; }", "a\n$(a)\n"}
+		k := 0
+		for _, v := range vals {
+			for _, src := range srcs {
+				k++
+				if k%nsh != sh {
+					continue
+				}
+				for _, bv := range []string{"a", "a "} {
+					al := map[string]string{"a": v, "b": bv}
+					run(t, wproto.Req{Op: "parse", Src: src, Kind: c01Kinds[k%len(c01Kinds)], Env: "aliases", Aliases: al}, false)
+				}
+				st.ClassN("multi_line_alias_values_in_substitutions", 2)
+			}
+		}
+		st.Note("multi-line alias values in substitutions: %d values (here-documents, compound commands and substitutions that span lines) x %d sources (the alias met in a command or backquote substitution inside a word, a here-document delimiter or body, an arithmetic expansion, a redirection, a for or case word, a function name) x {directly, through a second alias}", len(vals), len(srcs))
+	}
+
 	// (ii) generated programs truncated at every rune; (iii) mutations; alias tables
 	n := 4000
 	if thorough() {
@@ -300,6 +363,8 @@ func TestC01(t *testing.T) {
 	hostile := []string{"<<\"\"", "<<\"$x\"", "<<\"\\\"\"", "<<E\"\"OF", "<<''", "<<\\", "$((", "`", "\\", "${", "<<E\n", "((", "'", "\"", "$(", "<<-", ";;", "\n", "#", "{", "}", "é", "\x00", "\xff", "))", ")", "&&", "|", "&"}
 	// alias values: names (so that chains and cycles arise), complete tokens and unterminated fragments
 	vtoks := append(append(append([]string{}, "a", "b", "c", "cmd", "echo", "ls", "x1", "foo"), gen.TokenAlphabet...), hostile...)
+	// ... and values that span lines
+	vtoks = append(vtoks, "cat <<E\nb\nE\n", "(x\ny)", "{ x\ny; }", "x <<E", "if x\nthen y\nfi", "$(x\ny)", "<<-`a`", "<<$(b)", "$(a)", "`b`", "cat <<E\n$(a)\nE\n")
 	prop := func(rt *rapid.T) {
 		o := genOpts()
 		o.MaxDepth = rapid.IntRange(1, 3).Draw(rt, "maxdepth")
